@@ -169,6 +169,15 @@ class Program:
             return None
         return c[0]
 
+    def resolve(self, caller, name):
+        """Definitions a direct call to `name` from `caller` can bind to (static in the
+        same file first)."""
+        c = self.functions.get(name, [])
+        same = [f for f in c if f.file == caller.file]
+        if same:
+            return same
+        return [f for f in c if not f.static or f.file.endswith(".h")]
+
     def fns_in(self, file):
         out = []
         for l in self.functions.values():
